@@ -757,10 +757,14 @@ func (p *Pool) sync(s *Sched) *objState {
 func (p *Pool) Get() any {
 	s := cur
 	if s == nil {
-		if p.real.New == nil && p.New != nil {
-			p.real.New = p.New
+		// pass-through: the real pool, with New applied here (no lazily written field: Get is concurrent)
+		if v := p.real.Get(); v != nil {
+			return v
 		}
-		return p.real.Get()
+		if p.New != nil {
+			return p.New()
+		}
+		return nil
 	}
 	o := p.sync(s)
 	s.point(OpPoolGet, o, "")
